@@ -300,3 +300,192 @@ func ruleLexTcol(c *Ctx) []Obligation {
 	}
 	return obs
 }
+
+// ---------------------------------------------------------------- TYPE.POST, FLAG.IMPLIES
+// Two facts that NIL used to take on trust (reasoned exceptions) and that are cheap to decide.
+
+func init() {
+	register(&Rule{Name: "TYPE.POST", Props: []string{"C01", "C09"}, Floor: 2,
+		Doc: "post-condition of (*Type).resolve: a return that can carry an empty error list is reached only after the resolved type has been stored (callers dereference it when no error came back)",
+		Run: ruleTypePost})
+	register(&Rule{Name: "FLAG.IMPLIES", Props: []string{"C01", "C08"}, Floor: 2,
+		Doc: "a presence flag for min/max-elements is set only on an entry whose list attributes have been allocated on the same path (the deviation applier reads them under the flag)",
+		Run: ruleFlagImplies})
+}
+
+func definitelyNonEmptySlice(v ssa.Value, at *ssa.BasicBlock) bool {
+	switch x := v.(type) {
+	case *ssa.Slice:
+		if al, isA := x.X.(*ssa.Alloc); isA {
+			if pt, isP := al.Type().(*types.Pointer); isP {
+				if arr, isArr := pt.Elem().Underlying().(*types.Array); isArr && arr.Len() >= 1 {
+					return true
+				}
+			}
+		}
+	case *ssa.Call:
+		if b, isB := x.Call.Value.(*ssa.Builtin); isB && b.Name() == "append" && len(x.Call.Args) == 2 {
+			if len(variadicElems(x.Call.Args[1])) >= 1 {
+				return true
+			}
+			if definitelyNonEmptySlice(x.Call.Args[1], at) || definitelyNonEmptySlice(x.Call.Args[0], at) {
+				return true
+			}
+		}
+	case *ssa.Phi:
+		for _, e := range x.Edges {
+			if !definitelyNonEmptySlice(e, at) {
+				return false
+			}
+		}
+		return len(x.Edges) > 0
+	}
+	// under a dominating len(v) != 0 test
+	if at != nil && nonEmptyGuard(at, func(y ssa.Value) bool { return y == v || sameExpr(y, v) }) {
+		return true
+	}
+	return false
+}
+
+func ruleTypePost(c *Ctx) []Obligation {
+	const R = "TYPE.POST"
+	fn := c.Fn("yang.(*Type).resolve")
+	tT := c.Named("yang", "Type")
+	if fn == nil || tT == nil {
+		return []Obligation{undecided(R, "type resolver", "-", "(*Type).resolve not found")}
+	}
+	fYT := FieldVar(tT, "YangType")
+	var stores []*ssa.Store
+	for _, st := range storesToField(fn, fYT) {
+		_, _, base := fieldOf(st.Addr)
+		if isParamN(fn, base, 0) && !isNilConst(st.Val) {
+			stores = append(stores, st)
+		}
+	}
+	var obs []Obligation
+	n := 0
+	for _, b := range fn.Blocks {
+		r, isR := b.Instrs[len(b.Instrs)-1].(*ssa.Return)
+		if !isR || len(r.Results) != 1 || b == fn.Recover {
+			continue // the recover block only runs after a panic, which this rule does not model
+		}
+		v := resolveSpill(r.Results[0], r)
+		if definitelyNonEmptySlice(v, b) {
+			continue
+		}
+		n++
+		con := fmt.Sprintf("%s: a return that may carry no error happens only with the resolved type stored", c.FnName(fn))
+		if n > 1 {
+			con = fmt.Sprintf("%s #%d", con, n)
+		}
+		set := false
+		for _, st := range stores {
+			if dominates(st, r) {
+				set = true
+			}
+		}
+		if !set {
+			for _, g := range guardsAt(b) {
+				if x, isEq, isT := nilTest(g.Cond); isT && isEq != g.Branch {
+					if _, f, base := loadedField(x); f == fYT && isParamN(fn, base, 0) {
+						set = true
+					}
+				}
+			}
+		}
+		if set {
+			obs = append(obs, ok(R, con, c.InstrPos(r), "dominated by t.YangType = … or by the test t.YangType != nil"))
+		} else {
+			obs = append(obs, bad(R, con, c.InstrPos(r), "the error list returned here can be empty although t.YangType was not stored on this path: Typedef.resolve and the entry converter dereference the resolved type whenever no error came back (nil dereference while processing)"))
+		}
+	}
+	if n == 0 {
+		obs = append(obs, undecided(R, "type resolver returns", c.Pos(fn.Pos()), "no return that may carry an empty list found"))
+	}
+	return obs
+}
+
+func ruleFlagImplies(c *Ctx) []Obligation {
+	const R = "FLAG.IMPLIES"
+	m := c.entryModel()
+	fLA := FieldVar(m.entry, "ListAttr")
+	fDP := FieldVar(m.entry, "deviatePresence")
+	if fLA == nil || fDP == nil {
+		return []Obligation{undecided(R, "presence flags", "-", "Entry.ListAttr / Entry.deviatePresence not found")}
+	}
+	var obs []Obligation
+	n := 0
+	for _, fn := range c.Funcs {
+		if fn.Pkg == nil || shortPkg(fn.Pkg.Pkg.Path()) != "yang" {
+			continue
+		}
+		eachInstr(fn, func(in ssa.Instruction) {
+			st, isS := in.(*ssa.Store)
+			if !isS || !isTrueConst(st.Val) {
+				return
+			}
+			fa, isFA := st.Addr.(*ssa.FieldAddr)
+			if !isFA {
+				return
+			}
+			_, pf, entryBase := fieldOf(fa.X)
+			if pf != fDP {
+				return
+			}
+			_, flag, _ := fieldOf(fa)
+			n++
+			con := fmt.Sprintf("%s: %s is set only with ListAttr allocated", c.FnName(fn), flag.Name())
+			path := AccessPath(entryBase)
+			okA := false
+			// a dominating store of a non-nil ListAttr on the same entry, or a dominating ListAttr != nil test
+			for _, s2 := range storesToField(fn, fLA) {
+				_, _, b2 := fieldOf(s2.Addr)
+				if AccessPath(b2) == path && !isNilConst(s2.Val) {
+					// the store sits in `if e.ListAttr == nil { e.ListAttr = new }`: after that If joins, ListAttr is non-nil
+					if dominates(s2, st) {
+						okA = true
+					}
+					for _, g := range guardsAt(s2.Block()) {
+						if x, isEq, isT := nilTest(g.Cond); isT && isEq == g.Branch {
+							// the store must be all that stands under the nil test (its block is the test's own successor)
+							succ := g.If.Block().Succs[1]
+							if g.Branch {
+								succ = g.If.Block().Succs[0]
+							}
+							if _, f, b3 := loadedField(x); f == fLA && AccessPath(b3) == path && g.If.Block().Dominates(st.Block()) && succ == s2.Block() {
+								okA = true
+							}
+						}
+					}
+				}
+			}
+			if !okA {
+				// a dominating call of a helper that makes ListAttr non-nil on every path
+				eachInstr(fn, func(in2 ssa.Instruction) {
+					call, isC := in2.(*ssa.Call)
+					if !isC || !dominates(call, st) {
+						return
+					}
+					cal := call.Call.StaticCallee()
+					if cal == nil || !c.isRepoFn(cal) {
+						return
+					}
+					for _, ef := range c.ensuredFields(cal) {
+						if ef.field == fLA.Name() && ef.param < len(call.Call.Args) && AccessPath(call.Call.Args[ef.param]) == path {
+							okA = true
+						}
+					}
+				})
+			}
+			if okA {
+				obs = append(obs, ok(R, con, c.InstrPos(st), "if e.ListAttr == nil { e.ListAttr = … } (or a helper doing that) precedes the flag store on every path"))
+			} else {
+				obs = append(obs, bad(R, con, c.InstrPos(st), "the flag is set on a path where ListAttr may still be nil: applying the deviation reads devSpec.ListAttr.Min/MaxElements under this flag and dereferences nil"))
+			}
+		})
+	}
+	if n == 0 {
+		obs = append(obs, undecided(R, "presence flags", "-", "no store of true into Entry.deviatePresence found"))
+	}
+	return obs
+}
